@@ -179,9 +179,16 @@ def check(tier='quick', seed=0):
         pool = [n + o + q + '?' for n in su['names'] for o in su['offsets'] for q in su['outs']]
         for n in range(1, max_atoms + 1):
             for tree in _shapes(n):
-                for _ in range(per_shape):
-                    atoms = rnd.sample(pool, n)
-                    point_text = rnd.choice(su['points'])
+                draws = [(rnd.sample(pool, n), rnd.choice(su['points'])) for _ in range(per_shape)]
+                if n >= 2:
+                    # systematic: the SAME task and output at two different offsets (e.g. 1/a beside
+                    # -1/a around the initial point: one message is a suffix of the other)
+                    for name in ('a', '1'):
+                        for o1, o2 in itertools.permutations(su['offsets'], 2):
+                            for pt in su['points'][:2]:
+                                atoms = [name + o1 + '?', name + o2 + '?'] + rnd.sample(pool, n - 2)
+                                draws.append((atoms, pt))
+                for atoms, point_text in draws:
                     line = _text(tree, atoms)
                     try:
                         pres, _tt, icp, point = _build(su, line, point_text)
